@@ -282,3 +282,112 @@ def parse_file(path):
     with open(path, "rb") as f:
         data = f.read()
     return H4File(data, path)
+
+
+def parse_file_mmap(path):
+    """Like parse_file but memory-maps the file (sparse files of ~2 GiB must not be read into memory)."""
+    import mmap
+    f = open(path, "rb")
+    try:
+        m = mmap.mmap(f.fileno(), 0, access=mmap.ACCESS_READ)
+    finally:
+        f.close()
+    return H4File(m, path)
+
+
+class RecordError(Exception):
+    pass
+
+
+class _Cur:
+    def __init__(self, raw):
+        self.raw, self.p = raw, 0
+
+    def take(self, fmt):
+        n = struct.calcsize(fmt)
+        if self.p + n > len(self.raw):
+            raise RecordError("record truncated at byte %d (need %d more, length %d)" % (self.p, n, len(self.raw)))
+        v = struct.unpack(fmt, self.raw[self.p:self.p + n])
+        self.p += n
+        return v if len(v) > 1 else v[0]
+
+    def bytes(self, n):
+        if n < 0 or self.p + n > len(self.raw):
+            raise RecordError("string of length %d at byte %d exceeds record length %d" % (n, self.p, len(self.raw)))
+        v = bytes(self.raw[self.p:self.p + n])
+        self.p += n
+        return v
+
+
+def parse_vg(raw):
+    """Decode a DFTAG_VG record by the format specification. Raises RecordError when inconsistent."""
+    c = _Cur(raw)
+    n = c.take(">H")
+    tags = [c.take(">H") for _ in range(n)]
+    refs = [c.take(">H") for _ in range(n)]
+    name = c.bytes(c.take(">H"))
+    cls = c.bytes(c.take(">H"))
+    extag, exref = c.take(">HH")
+    out = dict(nvelt=n, tags=tags, refs=refs, name=name, cls=cls, extag=extag, exref=exref, attrs=[])
+    rest = len(raw) - c.p
+    # old records: version, more, pad ; new records (version 4): flags(4) [nattrs(4) (tag,ref)*] version more pad
+    if rest >= 4 + 4 + 1:
+        save = c.p
+        flags = c.take(">I")
+        try:
+            attrs = []
+            if flags & 1:
+                na = c.take(">i")
+                if na < 0 or na > 65535:
+                    raise RecordError("attribute count %d" % na)
+                attrs = [c.take(">HH") for _ in range(na)]
+            ver, more = c.take(">HH")
+            if ver == 4 and len(raw) - c.p <= 1:
+                out.update(flags=flags, attrs=attrs, version=ver, more=more, consumed=c.p)
+                return out
+        except RecordError:
+            pass
+        c.p = save
+    ver, more = c.take(">HH")
+    out.update(flags=0, version=ver, more=more, consumed=c.p)
+    if len(raw) - c.p > 1:
+        raise RecordError("vgroup record has %d unexplained trailing bytes" % (len(raw) - c.p))
+    return out
+
+
+def parse_vh(raw):
+    """Decode a DFTAG_VH (vdata header) record by the format specification."""
+    c = _Cur(raw)
+    interlace, nvert, ivsize, nf = c.take(">hiHh")
+    if nf < 0:
+        raise RecordError("negative field count %d" % nf)
+    types = [c.take(">h") for _ in range(nf)]
+    isize = [c.take(">H") for _ in range(nf)]
+    off = [c.take(">H") for _ in range(nf)]
+    order = [c.take(">H") for _ in range(nf)]
+    names = []
+    for _ in range(nf):
+        ln = c.take(">h")
+        names.append(c.bytes(ln))
+    name = c.bytes(c.take(">h"))
+    cls = c.bytes(c.take(">h"))
+    extag, exref, ver, more = c.take(">HHhh")
+    out = dict(interlace=interlace, nvert=nvert, ivsize=ivsize, nfields=nf, types=types, isize=isize, off=off,
+               order=order, names=names, name=name, cls=cls, version=ver, more=more, attrs=[], flags=0)
+    rest = len(raw) - c.p
+    if rest > 1:
+        if rest > 5:
+            flags = c.take(">I")
+            out["flags"] = flags
+            if flags & 1:
+                na = c.take(">i")
+                if na < 0 or na > 65535:
+                    raise RecordError("attribute count %d" % na)
+                out["attrs"] = [c.take(">iHH") for _ in range(na)]
+        v2, m2 = c.take(">hh")      # duplicated version/more fields
+        if (v2, m2) != (ver, more):
+            raise RecordError("duplicated version/more fields differ: %r vs %r" % ((v2, m2), (ver, more)))
+    if len(raw) - c.p > 1:
+        raise RecordError("vdata header has %d unexplained trailing bytes" % (len(raw) - c.p))
+    out["consumed"] = c.p
+    return out
